@@ -18,7 +18,7 @@
           ANY length), `ip_roundtrip`, `registry_matches`
   * "A received frame whose type or length field disagrees with the datagram is
     refused"
-        → `bvll_refuses_type`, `bvll_refuses_length`, `bvll_refuses_short`,
+        → `bvll_refuses` = `bvll_refuses_type`, `bvll_refuses_length`, `bvll_refuses_short`,
           `bvlpdu_accepts_iff` (exact characterisation of what is accepted),
           `confirmation_only_decoding_errors` (no other failure; the table loops
           never run out of fuel, i.e. terminate), `unknown_function` (function
@@ -456,6 +456,20 @@ theorem unknown_function (fn : Nat) (data : Bytes) (hfn : 12 ≤ fn) (hfn' : fn 
       fn (data.length + 4) data).mpr ⟨hfn', hl, by simp [be16], rfl⟩
   have := (fnOfCode_none_iff fn).mpr hfn
   simp [codecConfirmation, hdec, this]
+
+/-- **bvll_refuses**: the refusals of the property in one statement — a
+    datagram whose type octet is not 0x81, whose length field is not its
+    number of octets, or which is too short to have either, ends in a decoding
+    error; a well-framed one with an unregistered function code is not
+    delivered as any message. -/
+theorem bvll_refuses :
+    (∀ bs : Bytes, bs.head? ≠ some 0x81 → codecConfirmation bs = .refused .decoding) ∧
+    (∀ (t fn hi lo : UInt8) (rest : Bytes), hi.toNat * 256 + lo.toNat ≠ rest.length + 4 →
+        codecConfirmation (t :: fn :: hi :: lo :: rest) = .refused .decoding) ∧
+    (∀ bs : Bytes, bs.length < 4 → codecConfirmation bs = .refused .decoding) ∧
+    (∀ (fn : Nat) (data : Bytes), 12 ≤ fn → fn < 256 → data.length + 4 < 65536 →
+        codecConfirmation (0x81 :: UInt8.ofNat fn :: (be16 (data.length + 4) ++ data)) = .unknownFunction fn) :=
+  ⟨bvll_refuses_type, bvll_refuses_length, bvll_refuses_short, unknown_function⟩
 
 /-! ## round trip of the twelve functions -/
 
